@@ -36,6 +36,7 @@ import (
 
 	"github.com/fabiolb/fabio/config"
 	"github.com/fabiolb/fabio/proxy"
+	"github.com/fabiolb/fabio/admin/api"
 	"github.com/fabiolb/fabio/route"
 
 	"verifharness/internal/vh"
@@ -681,6 +682,8 @@ var rrTables = []rrTable{
 	{"equal-5", "route add a rr.example/ http://a.internal:80/\nroute add b rr.example/ http://b.internal:80/\nroute add c rr.example/ http://c.internal:80/\nroute add d rr.example/ http://d.internal:80/\nroute add e rr.example/ http://e.internal:80/"},
 	{"weighted-25-75", "route add a rr.example/ http://a.internal:80/ weight 0.25\nroute add b rr.example/ http://b.internal:80/"},
 	{"weighted-10-20-70", "route add a rr.example/ http://a.internal:80/ weight 0.1\nroute add b rr.example/ http://b.internal:80/ weight 0.2\nroute add c rr.example/ http://c.internal:80/"},
+	// registered in an order that is neither the order of the names nor of the URLs, options out of order
+	{"equal-4-unordered", "route add m rr.example/ http://m.internal:80/ opts \"z=1 a=2\"\nroute add c rr.example/ http://z.internal:80/\nroute add x rr.example/ http://a.internal:80/\nroute add a rr.example/ http://k.internal:80/ opts \"strip=/s host=dst\""},
 }
 
 func rrRoute(tbl route.Table) *route.Route { return tbl["rr.example"][0] }
@@ -725,9 +728,19 @@ func rrCases(run *vh.Run) {
 			if len(ring) > 100 {
 				k = 150 + r.Intn(200)
 			}
+			// targets are identified by what they were when the round began; on odd repetitions the
+			// table is published and READ in the middle of the round (admin API route listing with and
+			// without ?raw, Table.String, Table.Dump): a reader is no lookup and must not move anything
+			before := &route.Route{Targets: append([]*route.Target{}, ro.Targets...)}
 			impl := make([]int, k)
 			for i := range impl {
-				impl[i] = targetIndex(ro, tbl.Lookup(newReq("rr.example", "/", "10.0.0.1:1"), "", rrPick, prefixMatch, gc, false))
+				if rep%2 == 1 && (i == k/3 || i == 2*k/3) {
+					route.SetTable(tbl)
+					(&api.RoutesHandler{}).ServeHTTP(httptest.NewRecorder(), httptest.NewRequest("GET", "/api/routes"+[]string{"", "?raw"}[i%2], nil))
+					_ = tbl.String()
+					_ = tbl.Dump()
+				}
+				impl[i] = targetIndex(before, tbl.Lookup(newReq("rr.example", "/", "10.0.0.1:1"), "", rrPick, prefixMatch, gc, false))
 				if impl[i] < 0 {
 					run.Violation(run.NextID(), "round-robin lookup returned a target that is not on the route", rt.name)
 					impl[i] = 0
